@@ -42,7 +42,7 @@ def expr_src(e):
     if t == "list":
         return "[" + ", ".join(expr_src(x) for x in e[1]) + "]"
     if t == "neg":
-        return "(-" + expr_src(e[1]) + ")"
+        return "(-(" + expr_src(e[1]) + "))"
     if t == "not":
         return "(not " + expr_src(e[1]) + ")"
     if t == "bin":
@@ -343,3 +343,76 @@ def default_context(rng):
            "k": [1, 2, 3][: rng.below(4)]}
     kinds = {"n": "int", "m": "int", "s": "str", "t": "bool", "l": "list", "k": "list"}
     return ctx, kinds
+
+
+# ---- shrinking (delta debugging on the AST) --------------------------------------------------
+def _sub_bodies(s):
+    """(index path within stmt tuple, body list) pairs"""
+    t = s[0]
+    if t == "if":
+        return [b for _, b in s[1]] + ([s[2]] if s[2] is not None else [])
+    if t == "for":
+        return [s[4]] + ([s[5]] if s[5] is not None else [])
+    if t in ("setblock", "with", "filterblock", "autoescape"):
+        return [s[2]]
+    if t == "macro":
+        return [s[4]]
+    if t == "callblock":
+        return [s[3]]
+    return []
+
+
+def _replace_body(s, old, new):
+    t = s[0]
+    if t == "if":
+        arms = [(c, new if b is old else b) for c, b in s[1]]
+        els = new if s[2] is old else s[2]
+        return ("if", arms, els)
+    if t == "for":
+        return ("for", s[1], s[2], s[3], new if s[4] is old else s[4], new if s[5] is old else s[5], s[6])
+    if t in ("setblock",):
+        return (t, s[1], new, s[3])
+    if t in ("with", "filterblock", "autoescape"):
+        return (t, s[1], new)
+    if t == "macro":
+        return ("macro", s[1], s[2], s[3], new)
+    if t == "callblock":
+        return ("callblock", s[1], s[2], new)
+    return s
+
+
+def variants(body):
+    """smaller variants of a statement list"""
+    for i in range(len(body)):
+        yield body[:i] + body[i + 1:]                       # drop a statement
+    for i, s in enumerate(body):
+        for b in _sub_bodies(s):
+            yield body[:i] + list(b) + body[i + 1:]          # replace a construct by one of its bodies
+            for v in variants(b):
+                yield body[:i] + [_replace_body(s, b, v)] + body[i + 1:]
+        if s[0] == "for" and s[3] is not None:
+            yield body[:i] + [("for", s[1], s[2], None, s[4], s[5], s[6])] + body[i + 1:]
+        if s[0] == "if" and len(s[1]) > 1:
+            yield body[:i] + [("if", s[1][:1], s[2])] + body[i + 1:]
+            yield body[:i] + [("if", s[1][1:], s[2])] + body[i + 1:]
+
+
+def shrink(body, still_fails, budget=300):
+    """greedy delta debugging: keeps applying the first smaller variant on which `still_fails` holds"""
+    cur = body
+    n = 0
+    progress = True
+    while progress and n < budget:
+        progress = False
+        for v in variants(cur):
+            n += 1
+            if n > budget:
+                break
+            try:
+                if still_fails(v):
+                    cur = v
+                    progress = True
+                    break
+            except Exception:
+                pass
+    return cur
